@@ -1,6 +1,6 @@
 """C03 sort order persists through the pipeline and take selects by position."""
 import itertools, json, random, re
-import vlib, relgen, relcheck, sorttrace, flattrace
+import vlib, relgen, relcheck, sorttrace, flattrace, joinorder
 from vlib import vh_batch, drv_batch
 from props.c01 import SAFE, FULL
 
@@ -152,9 +152,13 @@ def run(ctx):
                                 "status": r["status"], "detail": r["detail"], "class": fid},
                                det_key=None if label == "seed" else (orig.prql, orig.db))
     ctx.coverage_extra["sequence_comparisons"] = nseq
+    # the left input of a join keeps its order for EVERY join side (the reference semantics leaves the position of the padded rows of
+    # right / full joins open, so the sequence comparison above does not judge those programs)
+    nbad_jo = joinorder.run(ctx)
+    tprogs_jo = [p_["prql"] for p_ in joinorder.programs()]
     # (iii) the sorting-inference mirror: every recorded call of fold_sql_transforms replayed through Model.InferSorts.inferBlock,
     # every look-up of a CTE's sorting checked against Model.InferSorts.Store
-    tprogs = [c.prql for c in letcases[:150 if quick else 1500]] + [c.prql for c in dia[:400 if quick else 4000]]
+    tprogs = tprogs_jo + [c.prql for c in letcases[:150 if quick else 1500]] + [c.prql for c in dia[:400 if quick else 4000]]
     trng = random.Random(39)
     tprogs += [relgen.make_case(trng, kinds=ORDER_KINDS, max_tr=7, **SAFE).prql for _ in range(250 if quick else 2500)]
     tprogs += [relgen.make_case(trng, **FULL).prql for _ in range(100 if quick else 1000)]
